@@ -475,6 +475,8 @@ def cmd_check(pid, tier, seed, jobs):
 
 
 def main(argv=None):
+    import warnings
+    warnings.filterwarnings("ignore", category=RuntimeWarning)     # abandoned paths leave never-awaited coroutines behind
     ap = argparse.ArgumentParser()
     ap.add_argument("pid", nargs="?")
     ap.add_argument("--tier", default=os.environ.get("VERIF_TIER", "quick"), choices=["quick", "thorough"])
